@@ -170,6 +170,48 @@ func (w *world) concurrent(k int) {
 	h.seen = true
 }
 
+// heldReplay: a connection is accepted first and stays quiet; meanwhile the
+// same hello is presented and accepted on a second connection; then it is
+// presented on the held connection (within the server's handshake timeout).
+// The handshakes complete in another order than the accepts.
+func (w *world) heldReplay() {
+	h := w.fresh(int64(w.rng.IntN(3) - 1))
+	var held *o4.ProbeResult
+	done := make(chan struct{})
+	w.c.Go(func() { close(done) }, func() {
+		held = o4.RunProbe(w.c, w.sf, o4.ProbeScript{Segments: [][]byte{h.h.Bytes}, Gaps: []time.Duration{5 * time.Second}, CloseAfter: -1})
+	})
+	time.Sleep(time.Second)
+	w.submit(h, "fresh")
+	<-done
+	H := nowHour()
+	w.trace = append(w.trace, fmt.Sprintf("replay-on-connection-accepted-earlier->%v", held.Accepted))
+	w.judge(h, "replay-on-held-connection", H, true, false, held)
+	w.r.Count("held_connection_scenarios", 1)
+}
+
+// overlapThenReplay: connection A is accepted first but completes its
+// handshake last (after B, accepted later, has completed); afterwards B's
+// hello is replayed on a new connection.
+func (w *world) overlapThenReplay() {
+	a, b := w.fresh(0), w.fresh(0)
+	var ra *o4.ProbeResult
+	done := make(chan struct{})
+	w.c.Go(func() { close(done) }, func() {
+		ra = o4.RunProbe(w.c, w.sf, o4.ProbeScript{Segments: [][]byte{a.h.Bytes}, Gaps: []time.Duration{5 * time.Second}, CloseAfter: -1})
+	})
+	time.Sleep(time.Second)
+	w.submit(b, "fresh")
+	<-done
+	H := nowHour()
+	w.trace = append(w.trace, fmt.Sprintf("fresh-on-connection-accepted-earlier->%v", ra.Accepted))
+	w.judge(a, "fresh-on-held-connection", H, true, true, ra)
+	a.seen = true
+	w.submit(b, "replay")
+	w.submit(a, "replay")
+	w.r.Count("held_connection_scenarios", 1)
+}
+
 var steps = []time.Duration{0, time.Second, 59 * time.Minute, 61 * time.Minute, 2 * time.Hour, 2*time.Hour + 59*time.Minute, 3*time.Hour + time.Minute}
 
 func newWorld(c *mon.Case, r *mon.Run, dir string, seed uint64) *world {
@@ -267,8 +309,12 @@ func TestCheck(t *testing.T) {
 					d := steps[w.rng.IntN(len(steps))]
 					time.Sleep(d)
 					w.trace = append(w.trace, "advance("+d.String()+")")
-				case x == 8:
+				case x == 8 && k%2 == 0:
 					w.concurrent(2 + w.rng.IntN(15))
+				case x == 8 && w.rng.IntN(2) == 0:
+					w.heldReplay()
+				case x == 8:
+					w.overlapThenReplay()
 				default:
 					w.submit(w.fresh(int64(w.rng.IntN(3)-1)), "fresh")
 				}
